@@ -1,7 +1,8 @@
 (* C01 - notify inverts the communication pattern.
    All functions named nary_* are slices of sc_notify_recursive_nary GENERATED from /repo (Gen/NotifyC01.v). *)
 From Coq Require Import ZArith List Bool.
-From ScV Require Import Base.CInt Gen.NotifyC01 C01.NaryArith C01.NaryDelivery.
+From Coq Require Import Permutation Lia.
+From ScV Require Import Base.CInt Gen.NotifyC01 C01.NaryArith C01.NaryDelivery C01.MergeModel C01.MergeProofs C01.MergeCorr.
 Import ListNotations.
 Local Open Scope Z_scope.
 
@@ -66,3 +67,64 @@ Example C01_nonvacuous :
   deliver [3; 2; 2] 1 11 7 10 = 10 /\ deliver [3; 2; 2] 1 11 10 0 = 0 /\
   final_senders [3; 2; 2] 11 (fun f => if f =? 4 then [0; 9] else if f =? 9 then [9] else if f =? 10 then [9] else []) 9 = [4; 9; 10].
 Proof. repeat split; vm_compute; reflexivity. Qed.
+
+(* ---- the record format and sc_notify_merge --------------------------------------------------------------
+   notify_merge is the int-level model that follows the C loop (compared with the static function of the working
+   tree on every run); rmerge / imerge are the merge on abstract records (torank, [(fromrank, payload ints)]). *)
+
+(* on encoded arrays the int-level merge computes the encoding of the abstract merge of the records of `input`
+   that are not marked as sent (torank -1) with the records of `second`; npay payload ints per sender *)
+Theorem C01_merge_model : forall n a b, wfpay n a -> wfpay n b ->
+  notify_merge (Z.of_nat n) (encode a) (encode b) = encode (rmerge (live a) b).
+Proof. exact notify_merge_encode. Qed.
+Print Assumptions C01_merge_model.
+
+(* the merge neither loses nor invents nor duplicates a notification (torank, fromrank, payload) - no hypothesis *)
+Theorem C01_merge_union : forall a b, Permutation (pairs (rmerge a b)) (pairs a ++ pairs b).
+Proof. exact rmerge_pairs. Qed.
+Print Assumptions C01_merge_union.
+
+(* well-formedness (toranks strictly ascending, senders of a record strictly ascending and not empty) is kept,
+   provided the operands do not hold the same sender for the same destination (the SC_ASSERT of the sender loop) *)
+Theorem C01_merge_wf : forall a b, wfr a -> wfr b -> disj a b -> wfr (rmerge a b).
+Proof. exact rmerge_wf. Qed.
+Print Assumptions C01_merge_wf.
+
+(* a well-formed record array is determined by the set of notifications it holds *)
+Theorem C01_merge_canonical : forall a b, wfr a -> wfr b -> Permutation (pairs a) (pairs b) -> a = b.
+Proof. exact wfr_canonical. Qed.
+Print Assumptions C01_merge_canonical.
+
+Theorem C01_merge_comm : forall a b, wfr a -> wfr b -> disj a b -> rmerge a b = rmerge b a.
+Proof. exact rmerge_comm. Qed.
+Print Assumptions C01_merge_comm.
+
+Theorem C01_merge_assoc : forall a b c, wfr a -> wfr b -> wfr c -> disj a b -> disj a c -> disj b c ->
+  rmerge (rmerge a b) c = rmerge a (rmerge b c).
+Proof. exact rmerge_assoc. Qed.
+Print Assumptions C01_merge_assoc.
+
+(* binary recursion, rank with two incoming messages x, y at a level: whichever the wildcard probe matches first *)
+Theorem C01_merge_arrival_order : forall a x y, wfr a -> wfr x -> wfr y -> disj a x -> disj a y -> disj x y ->
+  rmerge (rmerge a x) y = rmerge (rmerge a y) x.
+Proof. exact rmerge_arrival_swap. Qed.
+Print Assumptions C01_merge_arrival_order.
+
+(* any merge tree over any arrangement of the same pairwise disjoint well-formed arrays gives the same array *)
+Theorem C01_merge_order_irrelevant : forall t1 t2,
+  Forall wfr (mleaves t1) -> pairwise_disj (mleaves t1) -> pairwise_disj (mleaves t2) ->
+  Permutation (mleaves t1) (mleaves t2) -> meval t1 = meval t2.
+Proof. exact merge_order_irrelevant. Qed.
+Print Assumptions C01_merge_order_irrelevant.
+
+Example C01_merge_nonvacuous :
+  let a := [(-1, [(9, [])]); (1, [(5, [])]); (7, [(2, [])])] in
+  let b := [(1, [(3, [])]); (2, [(9, [])])] in
+  wfr (live a) /\ wfr b /\ disj (live a) b /\ wfpay 0 a /\ wfpay 0 b /\
+  encode a = [-1; 1; 9; 1; 1; 5; 7; 1; 2] /\
+  notify_merge 0 (encode a) (encode b) = [1; 2; 3; 5; 2; 1; 9; 7; 1; 2].
+Proof.
+  cbv zeta. repeat split; try (vm_compute; reflexivity); repeat constructor; try lia; try discriminate.
+  intros t x y Hx Hy. vm_compute in Hx, Hy.
+  destruct Hx as [Hx|[Hx|[]]]; destruct Hy as [Hy|[Hy|[]]]; inversion Hx; inversion Hy; subst; cbn; congruence.
+Qed.
